@@ -238,7 +238,13 @@ func runEnc(wk string, param ttheader.EncodeParam, plen int) string {
 		} else {
 			frame = sink.Bytes()
 		}
-		all := append(append(make([]byte, 0, len(frame)+plen), frame...), payload(plen)...)
+		// plen < 0: a total-length field that is smaller than the header (never back-filled, or a hostile
+		// frame): no payload follows; PayloadLen must still be total + 4 - HeaderLen = plen
+		pn := plen
+		if pn < 0 {
+			pn = 0
+		}
+		all := append(append(make([]byte, 0, len(frame)+pn), frame...), payload(pn)...)
 		return "ok " + lib.Hex(frame) + " " + runDecFromBytes(all)
 	})
 }
@@ -822,6 +828,9 @@ func genEnc(o *lib.Opts, r *lib.Rng) {
 	// 6. payload lengths
 	for _, pl := range []int{0, 1, 2, 3, 4, 5, 100, 4095, 4096, 4097, 70000} {
 		emitEnc("payload", wks[pl%2], rparam(r, 3, 5), pl)
+		if pl <= 12 { // total-length field below the header length (hl >= 16, so hl+plen-4 >= 0)
+			emitEnc("payload-negative", wks[pl%2], rparam(r, 3, 5), -pl)
+		}
 	}
 	// 7. a writer that already failed
 	for i := 0; i < 4; i++ {
@@ -837,7 +846,7 @@ func genEnc(o *lib.Opts, r *lib.Rng) {
 		if i%300 == 7 {
 			maxE, maxS = 3, 30000
 		}
-		emitEnc("random", wks[r.Intn(2)], rparam(r, maxE, maxS), r.Pick(0, 0, 1, 7, 300))
+		emitEnc("random", wks[r.Intn(2)], rparam(r, maxE, maxS), r.Pick(0, 0, 1, 7, 300, -1, -12))
 	}
 }
 
